@@ -233,15 +233,28 @@ def zeroVals (rw : RW) : List FVal :=
   (List.range rw.nfields).map (fun i => match rw.fields.find? (·.index == i) with
     | some f => zeroVal f | none => .num [])
 
+def resOf : Option (List FVal) → DecRes
+  | some v => .ok v
+  | none => .panic
+
 /-- ReadWriter.Read (value part) -/
 def decode (rw : RW) (isV2 : Bool) (payload : Bytes) : DecRes :=
   if isV2 then
     let p := if payload.length < rw.sizeExtended.toNat then payload ++ replicateZ (rw.sizeExtended.toNat - payload.length) else payload
-    match decFields rw.fields p (zeroVals rw) with
-    | some v => .ok v | none => .panic
+    resOf (decFields rw.fields p (zeroVals rw))
   else
     if payload.length ≠ rw.sizeNormal.toNat then .errSize else
-    match decFields (rw.fields.filter (fun f => !f.isExt)) payload (zeroVals rw) with
-    | some v => .ok v | none => .panic
+    resOf (decFields (rw.fields.filter (fun f => !f.isExt)) payload (zeroVals rw))
+
+/-! ### bytes of the payload that belong to a field (what `Read` consumes for it) -/
+def isStr (f : DField) : Bool := f.ftype == .char && !f.isEnum
+def nElems (f : DField) : Nat := if f.goIsArray then f.goArrLen else 1
+def width (f : DField) : Nat := (Gen.fieldTypeSizes f.ftype).toNat
+def fsize (f : DField) : Nat := if isStr f then f.arrayLength.toNat else width f * nElems f
+def total (fs : List DField) : Nat := (fs.map fsize).sum
+
+/-- the byte-wide sizes computed by `Initialize` did not wrap: they are what the fields consume -/
+def rwOkB (rw : RW) : Bool :=
+  total rw.fields == rw.sizeExtended.toNat && total (rw.fields.filter (fun f => !f.isExt)) == rw.sizeNormal.toNat
 
 end Mav.Msg
